@@ -18,6 +18,7 @@ import LzProofs.GenOSAPLemmas
 import LzProofs.IdxOsap
 import LzProofs.GenHPParse
 import LzProofs.GenPropsCfgOSAP
+import LzProofs.GenCallByName
 
 set_option linter.unusedSimpArgs false
 set_option linter.unusedVariables false
@@ -224,7 +225,11 @@ theorem parse_loop_eq (grow : Nat → Nat → Nat) (ce : Gen.optSuffixArrayParse
       jI = (j : Int) - 1 → j + 1 ≤ fuel → i.toNat = iN → li.toNat = liN → iN + Sap.pathLen π < 4294967296 →
       blk.Sequences = seqs.map seqRep → blk.Literals.data = lits → SWF blk.Literals →
       Idx.pathToSeqsChk p.data π iN liN seqs lits = some r →
-      ∃ blk' i' li' j', Gen.optSuffixArrayParser_Parse_loop_1 grow ce sp p fuel blk i li jI = Res.ok (blk', i', li', j') ∧
+      -- the loop function applied and its state tuple built BY GO VARIABLE NAME (`gcall%` / `gstate%`,
+      -- LzProofs/GenCallByName.lean): declaring `litIndex` before `i` swaps two components of the state
+      ∃ blk' i' li' j', (gcall% Gen.optSuffixArrayParser_Parse_loop_1 [grow := grow, optSuffixArrayParser_computeEdges := ce,
+          sp := sp, p := p, fuel := fuel, blk := blk, i := i, litIndex := li, j := jI]) =
+          Res.ok (gstate% Gen.optSuffixArrayParser_Parse_loop_1 [blk := blk', i := i', litIndex := li', j := j']) ∧
         blk'.Sequences = r.1.map seqRep ∧ blk'.Literals.data = r.2.1 ∧ SWF blk'.Literals ∧
         i'.toNat = r.2.2.1 ∧ li'.toNat = r.2.2.2 := by
   intro j
@@ -267,14 +272,16 @@ theorem parse_loop_eq (grow : Nat → Nat → Nat) (ce : Gen.optSuffixArrayParse
         hadd hli (by omega) hseq hlit hswf hr
     · have ho' : ¬ e.o.toNat = 0 := fun hc => ho ((u32_eq_zero _).mpr hc)
       simp only [ho', if_false] at hr
-      simp only [ho, if_false]
+      -- the test `e.o == 0` with the operands either way round
+      have ho2 : ¬ ((0 : UInt32) = e.o) := fun hc => ho hc.symm
+      simp only [ho, ho2, if_false]
       have hpl : p.data.length = p.len := data_length hp
       have hpa : p.len ≤ p.arr.length := hp
       by_cases hq : liN ≤ iN ∧ iN ≤ p.data.length
       · simp only [Idx.sliceChk, hq, and_self, if_true] at hr
         rw [slice_okI p _ _ liN iN (by rw [← hli]; rfl) (by rw [← hi]; rfl) hq.1 (by omega), bind_ok]
         refine ih _ (by omega) rfl f _ (i + e.m) (i + e.m) (jI - 1) (iN + e.m.toNat) (iN + e.m.toNat) _ _ r
-          (by omega) (by omega) hadd hadd (by omega) ?_ ?_ (swf_append grow _ hswf _) hr
+          (by omega) (by omega) hadd hadd (by omega) ?_ ?_ ?_ hr
         · show blk.Sequences ++ [_] = List.map seqRep (seqs ++ [_])
           rw [List.map_append, hseq, List.map_singleton]
           congr 2
@@ -289,6 +296,7 @@ theorem parse_loop_eq (grow : Nat → Nat → Nat) (ce : Gen.optSuffixArrayParse
           congr 1
           show (p.arr.drop liN).take (iN - liN) = ((p.arr.take p.len).drop liN).take (iN - liN)
           rw [take_drop_take _ _ _ _ (by omega)]
+        · exact swf_append grow _ hswf _
       · simp only [Idx.sliceChk, hq, if_false] at hr
         cases hr
 
